@@ -28,7 +28,9 @@ def extract_color_from_decl(decl):
 
 
 def update_decl_value(decl, new_value_str):
-    decl.value = tinycss2.parse_component_value_list(new_value_str)
+    # Comments written inside the old value (e.g. "color: /* brand */ rgb(...)") are kept
+    comments = [token for token in decl.value if token.type == "comment"]
+    decl.value = tinycss2.parse_component_value_list(new_value_str) + comments
 
 
 def collect_variables(rules):
